@@ -7,45 +7,45 @@ Import ListNotations.
 Local Open Scope N_scope.
 
 Lemma stored_only_if_log_signed_lemma :
-  forall H hlen strict idhash decode sig_ok sign (threads : list (list op)) tr id raw,
+  forall H hlen strict ch idhash decode sig_ok sign (threads : list (list op)) tr id raw,
   interleaving threads tr ->
-  lookup (run_state H hlen strict idhash decode sig_ok sign [] tr) id = Some raw ->
+  lookup (run_state H hlen strict ch idhash decode sig_ok sign [] tr) id = Some raw ->
   exists p h p0, parse idhash decode sig_ok raw id = inl p
     /\ idhash id = Some (Some h) /\ decode raw = Some p0 /\ sig_ok id p = true /\ p_logid p = h
     /\ p_size p = p_size p0 /\ p_root p = p_root p0.
 Proof.
-  intros H hlen strict idhash decode sig_ok sign threads tr id raw _ Hl.
-  destruct (wf_run H hlen strict idhash decode sig_ok sign [] tr (wf_nil _ _ _) id raw Hl) as [p Hp].
+  intros H hlen strict ch idhash decode sig_ok sign threads tr id raw _ Hl.
+  destruct (wf_run H hlen strict ch idhash decode sig_ok sign [] tr (wf_nil _ _ _) id raw Hl) as [p Hp].
   destruct (parse_ok_inv _ _ _ _ _ _ Hp) as (h & p0 & A & B & C & D & _ & E & F).
   exists p, h, p0. repeat split; assumption.
 Qed.
 
 Lemma sizes_never_shrink_lemma :
-  forall H hlen strict idhash decode sig_ok sign (threads : list (list op)) tr earlier later id p1,
+  forall H hlen strict ch idhash decode sig_ok sign (threads : list (list op)) tr earlier later id p1,
   interleaving threads tr -> tr = earlier ++ later ->
-  held idhash decode sig_ok (run_state H hlen strict idhash decode sig_ok sign [] earlier) id = Some p1 ->
-  exists p2, held idhash decode sig_ok (run_state H hlen strict idhash decode sig_ok sign [] tr) id = Some p2
+  held idhash decode sig_ok (run_state H hlen strict ch idhash decode sig_ok sign [] earlier) id = Some p1 ->
+  exists p2, held idhash decode sig_ok (run_state H hlen strict ch idhash decode sig_ok sign [] tr) id = Some p2
     /\ p_size p1 <= p_size p2.
 Proof.
-  intros H hlen strict idhash decode sig_ok sign threads tr earlier later id p1 _ -> Hh.
+  intros H hlen strict ch idhash decode sig_ok sign threads tr earlier later id p1 _ -> Hh.
   rewrite run_state_app.
-  destruct (history_monotone H hlen strict idhash decode sig_ok sign later _ id p1 Hh) as (p2 & A & B & _).
+  destruct (history_monotone H hlen strict ch idhash decode sig_ok sign later _ id p1 Hh) as (p2 & A & B & _).
   exists p2. split; assumption.
 Qed.
 
 Lemma equal_size_equal_root_lemma :
-  forall H hlen strict idhash decode sig_ok sign (threads : list (list op)) tr earlier later id p1 p2,
+  forall H hlen strict ch idhash decode sig_ok sign (threads : list (list op)) tr earlier later id p1 p2,
   interleaving threads tr -> tr = earlier ++ later ->
-  held idhash decode sig_ok (run_state H hlen strict idhash decode sig_ok sign [] earlier) id = Some p1 ->
-  held idhash decode sig_ok (run_state H hlen strict idhash decode sig_ok sign [] tr) id = Some p2 ->
+  held idhash decode sig_ok (run_state H hlen strict ch idhash decode sig_ok sign [] earlier) id = Some p1 ->
+  held idhash decode sig_ok (run_state H hlen strict ch idhash decode sig_ok sign [] tr) id = Some p2 ->
   p_size p1 = p_size p2 ->
   p_root p1 = p_root p2 /\ p2 = p1
-  /\ lookup (run_state H hlen strict idhash decode sig_ok sign [] tr) id
-     = lookup (run_state H hlen strict idhash decode sig_ok sign [] earlier) id.
+  /\ lookup (run_state H hlen strict ch idhash decode sig_ok sign [] tr) id
+     = lookup (run_state H hlen strict ch idhash decode sig_ok sign [] earlier) id.
 Proof.
-  intros H hlen strict idhash decode sig_ok sign threads tr earlier later id p1 p2 _ -> Hh1 Hh2 Hs.
+  intros H hlen strict ch idhash decode sig_ok sign threads tr earlier later id p1 p2 _ -> Hh1 Hh2 Hs.
   rewrite run_state_app in *.
-  destruct (history_monotone H hlen strict idhash decode sig_ok sign later _ id p1 Hh1) as (p2' & A & _ & C).
+  destruct (history_monotone H hlen strict ch idhash decode sig_ok sign later _ id p1 Hh1) as (p2' & A & _ & C).
   rewrite Hh2 in A. injection A as <-. destruct (C Hs) as [C1 C2]. subst p2. auto.
 Qed.
 
@@ -55,21 +55,21 @@ Qed.
    or SHA-256 collides.  Code as it is (strict = false): for executions whose offered
    consistency proofs have 32-byte nodes; with pending_fixes/C19-1 (strict = true): all. *)
 Definition extension_statement (strict : bool) (restrict_to_sized_proofs : bool) : Prop :=
-  forall H hlen idhash decode sig_ok sign (threads : list (list op)) tr earlier later id p1 p2 leaves,
+  forall H hlen ch idhash decode sig_ok sign (threads : list (list op)) tr earlier later id p1 p2 leaves,
   (forall x, length (H x) = hlen) ->
   (forall raw p, decode raw = Some p -> length (p_root p) = hlen) ->
   interleaving threads tr -> tr = earlier ++ later ->
   (restrict_to_sized_proofs = true -> Forall (op_sized hlen) later) ->
-  held idhash decode sig_ok (run_state H hlen strict idhash decode sig_ok sign [] earlier) id = Some p1 ->
-  held idhash decode sig_ok (run_state H hlen strict idhash decode sig_ok sign [] tr) id = Some p2 ->
+  held idhash decode sig_ok (run_state H hlen strict ch idhash decode sig_ok sign [] earlier) id = Some p1 ->
+  held idhash decode sig_ok (run_state H hlen strict ch idhash decode sig_ok sign [] tr) id = Some p2 ->
   0 < p_size p1 -> p_size p2 = lenN leaves -> p_root p2 = mth H leaves ->
   p_root p1 = mth H (firstN (p_size p1) leaves) \/ collision_exists H.
 
 Lemma extension_proof strict r : (strict = true \/ r = true) -> extension_statement strict r.
 Proof.
-  intros Hsr H hlen idhash decode sig_ok sign threads tr earlier later id p1 p2 leaves HH Hd _ -> Hsz Hh1 Hh2 Hpos Hn Hr.
+  intros Hsr H hlen ch idhash decode sig_ok sign threads tr earlier later id p1 p2 leaves HH Hd _ -> Hsz Hh1 Hh2 Hpos Hn Hr.
   rewrite run_state_app in Hh2.
-  apply (history_consistent H hlen strict idhash decode sig_ok sign HH Hd later (run_state H hlen strict idhash decode sig_ok sign [] earlier) id p1 p2 leaves); auto.
+  apply (history_consistent H hlen strict ch idhash decode sig_ok sign HH Hd later (run_state H hlen strict ch idhash decode sig_ok sign [] earlier) id p1 p2 leaves); auto.
   destruct Hsr as [->| ->]; [left; reflexivity | right; apply Hsz; reflexivity].
 Qed.
 
@@ -80,7 +80,7 @@ Lemma successor_extends_predecessor_patched_lemma : extension_statement true fal
 Proof. apply extension_proof. left. reflexivity. Qed.
 
 Lemma successor_extends_predecessor_refuted_lemma :
-  forall H hlen idhash decode sig_ok sign id raw3 raw4 (p3 p4 : psth) d0 d1 d2 d3,
+  forall H hlen ch idhash decode sig_ok sign id raw3 raw4 (p3 p4 : psth) d0 d1 d2 d3,
   (forall x, length (H x) = hlen) -> (1 <= hlen)%nat ->
   let leaves := [d0; d1; d2; d3] in
   let L := node_hash H (leaf_hash H d0) (leaf_hash H d1) in
@@ -89,30 +89,30 @@ Lemma successor_extends_predecessor_refuted_lemma :
   parse idhash decode sig_ok raw3 id = inl p3 -> p_size p3 = 3 -> p_root p3 = node_hash H L s ->
   parse idhash decode sig_ok raw4 id = inl p4 -> p_size p4 = 4 -> p_root p4 = mth H leaves ->
   let tr := [OUpdate id raw3 [] NoFault; OUpdate id raw4 [s; t; L] NoFault] in
-  held idhash decode sig_ok (run_state H hlen false idhash decode sig_ok sign [] [OUpdate id raw3 [] NoFault]) id = Some p3
-  /\ held idhash decode sig_ok (run_state H hlen false idhash decode sig_ok sign [] tr) id = Some p4
+  held idhash decode sig_ok (run_state H hlen false ch idhash decode sig_ok sign [] [OUpdate id raw3 [] NoFault]) id = Some p3
+  /\ held idhash decode sig_ok (run_state H hlen false ch idhash decode sig_ok sign [] tr) id = Some p4
   /\ (x01 :: L ++ s) <> (x01 :: L ++ leaf_hash H d2)
   /\ (p_root p3 = mth H (firstN (p_size p3) leaves) -> H (x01 :: L ++ s) = H (x01 :: L ++ leaf_hash H d2))
-  /\ held idhash decode sig_ok (run_state H hlen true idhash decode sig_ok sign [] tr) id = Some p3.
+  /\ held idhash decode sig_ok (run_state H hlen true ch idhash decode sig_ok sign [] tr) id = Some p3.
 Proof.
-  intros H hlen idhash decode sig_ok sign id raw3 raw4 p3 p4 d0 d1 d2 d3 HH Hh leaves L s t Hp3 Hs3 Hr3 Hp4 Hs4 Hr4 tr.
+  intros H hlen ch idhash decode sig_ok sign id raw3 raw4 p3 p4 d0 d1 d2 d3 HH Hh leaves L s t Hp3 Hs3 Hr3 Hp4 Hs4 Hr4 tr.
   destruct (odd_length_nodes_accepted H hlen HH d0 d1 d2 d3 Hh) as (V & Ls & Hne & Himp).
   fold leaves L s t in V, Ls, Hne, Himp.
-  assert (U1 : forall strict, update H hlen strict idhash decode sig_ok sign [] id raw3 [] NoFault
+  assert (U1 : forall strict, update H hlen strict ch idhash decode sig_ok sign [] id raw3 [] NoFault
                  = ([(id, raw3)], (cosign sign p3, EOk))).
-  { intros strict. apply (acceptance_characterised H hlen strict idhash decode sig_ok sign [] id raw3 [] p3 Hp3).
+  { intros strict. apply (acceptance_characterised H hlen strict ch idhash decode sig_ok sign [] id raw3 [] p3 Hp3).
     left. reflexivity. }
   assert (Lk : lookup [(id, raw3)] id = Some raw3) by (cbn; rewrite bytes_eqb_refl; reflexivity).
   assert (VC : verify_consistency H (p_size p3) (p_size p4) [s; t; L] (p_root p3) (p_root p4) = true).
   { rewrite Hs3, Hs4, Hr3, Hr4. unfold verify_consistency. cbn [N.ltb N.eqb N.compare Pos.compare Pos.compare_cont Pos.eqb].
     exact V. }
-  assert (U2 : update H hlen false idhash decode sig_ok sign [(id, raw3)] id raw4 [s; t; L] NoFault
+  assert (U2 : update H hlen false ch idhash decode sig_ok sign [(id, raw3)] id raw4 [s; t; L] NoFault
                  = ([(id, raw4)], (cosign sign p4, EOk))).
-  { rewrite (acceptance_characterised H hlen false idhash decode sig_ok sign [(id, raw3)] id raw4 [s; t; L] p4 Hp4).
+  { rewrite (acceptance_characterised H hlen false ch idhash decode sig_ok sign [(id, raw3)] id raw4 [s; t; L] p4 Hp4).
     - cbn [store]. rewrite bytes_eqb_refl. reflexivity.
     - right. exists raw3, p3. repeat split; auto; try discriminate. rewrite Hs3, Hs4. reflexivity. }
-  assert (U3 : update H hlen true idhash decode sig_ok sign [(id, raw3)] id raw4 [s; t; L] NoFault
-                 = ([(id, raw3)], (BRaw raw3, EFailedPre))).
+  assert (U3 : update H hlen true ch idhash decode sig_ok sign [(id, raw3)] id raw4 [s; t; L] NoFault
+                 = ([(id, raw3)], (held_body ch sign raw3 p3, EFailedPre))).
   { unfold update. destruct (parse_ok_inv _ _ _ _ _ _ Hp4) as (h & p0 & Ei & _).
     rewrite Ei, Hp4, Lk, Hp3, Hs3, Hs4. cbn [N.ltb N.eqb N.compare Pos.compare Pos.compare_cont Pos.eqb].
     cbn [forallb]. unfold sized_b at 1.
@@ -127,38 +127,39 @@ Proof.
 Qed.
 
 Lemma refusal_leaves_state_lemma :
-  forall H hlen strict idhash decode sig_ok sign st o st' b e,
-  step H hlen strict idhash decode sig_ok sign st o = (st', ORsp (b, e)) ->
+  forall H hlen strict ch idhash decode sig_ok sign st o st' b e,
+  step H hlen strict ch idhash decode sig_ok sign st o = (st', ORsp (b, e)) ->
   (e <> EOk -> st' = st) /\ (st' <> st -> e = EOk /\ exists p sg, b = BCosigned p sg).
 Proof.
-  intros H hlen strict idhash decode sig_ok sign st o st' b e Hs.
-  destruct (step_state _ _ _ _ _ _ _ _ _ _ _ Hs) as [->|(id & raw & pf & f & next & _ & _ & -> & Hw)].
+  intros H hlen strict ch idhash decode sig_ok sign st o st' b e Hs.
+  destruct (step_state _ _ _ _ _ _ _ _ _ _ _ _ Hs) as [->|(id & raw & pf & f & next & _ & _ & -> & Hw)].
   - split; [reflexivity | intros C; contradiction].
   - injection Hw as -> ->. split; [intros C; contradiction | intros _; split; [reflexivity | unfold cosign; eauto]].
 Qed.
 
 Lemma stale_or_inconsistent_answered_with_held_lemma :
-  forall H hlen strict idhash decode sig_ok sign st id raw pf f st' b,
-  update H hlen strict idhash decode sig_ok sign st id raw pf f = (st', (b, EFailedPre)) ->
-  st' = st /\ exists heldRaw, lookup st id = Some heldRaw /\ b = BRaw heldRaw.
+  forall H hlen strict ch idhash decode sig_ok sign st id raw pf f st' b,
+  update H hlen strict ch idhash decode sig_ok sign st id raw pf f = (st', (b, EFailedPre)) ->
+  st' = st /\ exists heldRaw heldSTH, lookup st id = Some heldRaw /\ parse idhash decode sig_ok heldRaw id = inl heldSTH
+    /\ b = held_body ch sign heldRaw heldSTH.
 Proof.
-  intros H hlen strict idhash decode sig_ok sign st id raw pf f st' b Hu.
-  destruct (update_inv _ _ _ _ _ _ _ _ _ _ _ _ _ _ Hu) as [[-> [R|[R|(pr & Hl & [R|R])]]]|(next & _ & _ & R)];
+  intros H hlen strict ch idhash decode sig_ok sign st id raw pf f st' b Hu.
+  destruct (update_inv _ _ _ _ _ _ _ _ _ _ _ _ _ _ _ Hu) as [[-> [R|[R|(pr & pv & Hl & Hpp & [R|R])]]]|(next & _ & _ & R)];
     try discriminate R.
   injection R as ->. split; [reflexivity | eauto].
 Qed.
 
 Lemma cosignature_verifies_lemma :
-  forall H hlen strict idhash decode sig_ok sign verify (threads : list (list op)) tr before o after p sg e st',
+  forall H hlen strict ch idhash decode sig_ok sign verify (threads : list (list op)) tr before o after p sg e st',
   (forall m, verify m (sign m) = true) ->
   interleaving threads tr -> tr = before ++ o :: after ->
-  step H hlen strict idhash decode sig_ok sign (run_state H hlen strict idhash decode sig_ok sign [] before) o
+  step H hlen strict ch idhash decode sig_ok sign (run_state H hlen strict ch idhash decode sig_ok sign [] before) o
     = (st', ORsp (BCosigned p sg, e)) ->
-  e = EOk /\ verify (sth_enc p) sg = true /\ held idhash decode sig_ok st' (op_id o) = Some p.
+  (ch = false -> e = EOk) /\ verify (sth_enc p) sg = true /\ held idhash decode sig_ok st' (op_id o) = Some p.
 Proof.
-  intros H hlen strict idhash decode sig_ok sign verify threads tr before o after p sg e st' Hsv _ _ Hs.
-  destruct (cosigned_inv H hlen strict idhash decode sig_ok sign verify Hsv _ o st' p sg e
-              (wf_run H hlen strict idhash decode sig_ok sign [] before (wf_nil _ _ _)) Hs) as (A & _ & B & C).
+  intros H hlen strict ch idhash decode sig_ok sign verify threads tr before o after p sg e st' Hsv _ _ Hs.
+  destruct (cosigned_inv H hlen strict ch idhash decode sig_ok sign verify Hsv _ o st' p sg e
+              (wf_run H hlen strict ch idhash decode sig_ok sign [] before (wf_nil _ _ _)) Hs) as (A & _ & B & C).
   auto.
 Qed.
 
